@@ -150,6 +150,8 @@ def contracts(repo):
             out.append(_count_contiguous(cb))
             out.append(_yield_runs(cb))
             out.append(_read(cb))
+    for i in range(32):
+        out += _ext_bits(i)
     return out
 
 
@@ -478,3 +480,89 @@ def FuncRef_(name):
     from pyvc.engine import FuncRef
 
     return FuncRef(name)
+
+
+# ------------------------------------------------------------------------------------------------ extended L2 entries: sub-cluster bitmaps
+class ExtBitsModel(GeomModel):
+    """qcow2 object for the extended-L2 bit functions.  Only has_subclusters / has_data_file / subclusters_per_cluster are declared:
+    the functions are thereby shown not to depend on the cluster size (touching any other attribute is Unsupported)."""
+
+    def __init__(self):
+        super().__init__(16, True)
+        for k in [k for k in self.fields if k.startswith("qcow2.") and k not in ("qcow2.has_subclusters", "qcow2.has_data_file", "qcow2.subclusters_per_cluster")]:
+            del self.fields[k]
+        from pyvc.engine import bitlist_int
+
+        self.bitmap, self.bit_facts = bitlist_int("l2_bitmap", 64)
+        self.alloc = self.bitmap.bl[:32]
+        self.zero = self.bitmap.bl[32:]
+        self.both, self.any_alloc = z3.Bool("some_subcluster_is_both_allocated_and_zero"), z3.Bool("some_allocation_bit_is_set")
+        self.bit_facts += [self.both == z3.Or(*[z3.And(self.alloc[k] == 1, self.zero[k] == 1) for k in range(32)]), self.any_alloc == z3.Or(*[self.alloc[k] == 1 for k in range(32)])]
+        self.global_calls["cto"] = lambda eng, st, args, node: self.count(args, 0)
+        self.global_calls["ctz"] = lambda eng, st, args, node: self.count(args, 1)
+
+    def count(self, args, stop):
+        """contract of cto / ctz over a 32-bit window (proved for plain integers in the thorough tier), on a bit list"""
+        v = args[0]
+        if not isinstance(v, IntV) or v.bl is None:
+            raise Unsupported("cto/ctz of a value without a bit list")
+        bl = list(v.bl[:32]) + [z3.IntVal(0)] * max(0, 32 - len(v.bl))
+        r = z3.IntVal(32)
+        for i in range(31, -1, -1):
+            r = z3.If(bl[i] == stop, z3.IntVal(i), r)
+        return IntV(r)
+
+    # SPEC (qcow2.txt, extended L2 entries): type of sub-cluster i
+    def spec_sc_type(self, e, i):
+        CT, S = self.CT, self.SCT
+        ct = self.spec_cluster_type(e)
+        both, any_alloc = self.both, self.any_alloc  # named abbreviations (defined in bit_facts) keep the terms small
+        normal = z3.If(both, S["QCOW2_SUBCLUSTER_INVALID"], z3.If(self.zero[i] == 1, S["QCOW2_SUBCLUSTER_ZERO_ALLOC"], z3.If(self.alloc[i] == 1, S["QCOW2_SUBCLUSTER_NORMAL"], S["QCOW2_SUBCLUSTER_UNALLOCATED_ALLOC"])))
+        unalloc = z3.If(any_alloc, S["QCOW2_SUBCLUSTER_INVALID"], z3.If(self.zero[i] == 1, S["QCOW2_SUBCLUSTER_ZERO_PLAIN"], S["QCOW2_SUBCLUSTER_UNALLOCATED_PLAIN"]))
+        return z3.If(ct == CT["QCOW2_CLUSTER_COMPRESSED"], S["QCOW2_SUBCLUSTER_COMPRESSED"], z3.If(ct == CT["QCOW2_CLUSTER_NORMAL"], normal, unalloc))
+
+    def c_get_subcluster_type(self, eng, st, args, node):
+        e = eng.as_int(args[1], st, node)
+        i = z3.simplify(eng.as_int(args[3], st, node))
+        if not z3.is_int_value(i):
+            raise Unsupported("sub-cluster index is a case constant")
+        return IntV(self.spec_sc_type(e, i.as_long()))
+
+
+def _ext_bits(i):
+    e0 = z3.Int("l2_entry0")
+
+    def params(m, idx_name):
+        return {"qcow2": ObjV("qcow2"), "l2_entry": IntV(e0), "l2_bitmap": m.bitmap, idx_name: IntV(z3.IntVal(i))}
+
+    def req(m):
+        return [e0 >= 0, e0 <= U64] + m.bit_facts
+
+    def mk_type():
+        def model():
+            m = ExtBitsModel()
+            del m.global_calls["get_subcluster_type"]
+            return m
+
+        return FnContract(FILE, "get_subcluster_type", ["C01"], model, params=lambda m: params(m, "sc_index"), requires=req,
+                          post=lambda eng, st, rv: [("subcluster_type_per_qcow2_txt", eng.as_int(rv, st, None) == eng.model.spec_sc_type(e0, i))], case=f"extl2,sc={i}",
+                          note="extended L2 entry: first word any 64-bit value, bitmap = 64 independent bits; independent of the cluster size")
+
+    def post_range(eng, st, rv):
+        m = eng.model
+        t, n = (eng.as_int(x, st, None) for x in rv.items)
+        T_ = lambda k: m.spec_sc_type(e0, k)  # noqa: E731
+        goals = [("type_of_the_first_subcluster", t == T_(i)), ("count_in_range", z3.And(n >= 1, n <= 32 - i))]
+        S = m.SCT
+        # compressed clusters are counted whole (their sub-cluster type does not depend on the bitmap)
+        goals.append(("all_counted_subclusters_have_that_type", z3.And(*[z3.Implies(j < n, T_(i + j) == t) for j in range(32 - i)])))
+        goals.append(("count_is_maximal", z3.Or(n == 32 - i, *[z3.And(n == j, T_(i + j) != t) for j in range(1, 32 - i)])))
+        return goals
+
+    def model_range():
+        return ExtBitsModel()
+
+    c_range = FnContract(FILE, "get_subcluster_range_type", ["C01"], model_range, params=lambda m: params(m, "sc_from"), requires=req, post=post_range,
+                         raises={"Error": lambda eng, st: eng.model.spec_sc_type(e0, i) == eng.model.SCT["QCOW2_SUBCLUSTER_INVALID"]}, case=f"extl2,sc={i}",
+                         note="raises exactly for entries whose bitmap is invalid (a sub-cluster both allocated and zero, or allocation bits on an unallocated cluster)")
+    return [mk_type(), c_range]
